@@ -245,27 +245,29 @@ def gen_case(rng, kind=None):
                   ['val', 'x', 'y']]
     va_map_ok = rng.random() < 0.3
 
+    kfmt = 'k%d' if rng.random() < 0.7 else 'k_%d'
+
     def item(i, with_key=True, keyval=None):
         return rand_item(rng, ka, with_key,
                          keyval if keyval is not None
-                         else N.s_str('k%d' % i),
+                         else N.s_str(kfmt % i),
                          rng.choice(other_sets), va_map_ok)
     if kind == 'seq_of_maps':
         a = ['seq', [item(i) for i in range(n)], S.TAG_SEQ]
     elif kind == 'map_of_maps':
-        a = ['map', [[N.s_str('k%d' % i), item(i, rng.random() < 0.3)]
+        a = ['map', [[N.s_str(kfmt % i), item(i, rng.random() < 0.3)]
                      for i in range(n)], S.TAG_MAP]
     elif kind == 'index':
-        a = ['map', [[N.s_str('k%d' % i), item(i, True)] for i in range(n)],
+        a = ['map', [[N.s_str(kfmt % i), item(i, True)] for i in range(n)],
              S.TAG_MAP]
     elif kind == 'index_wrongname':
-        a = ['map', [[N.s_str('k%d' % i), item(
+        a = ['map', [[N.s_str(kfmt % i), item(
             i, True, N.s_str('other%d' % i))] for i in range(n)], S.TAG_MAP]
     elif kind == 'map_of_scalars':
-        a = ['map', [[N.s_str('k%d' % i), rng.choice(scalar_pool())]
+        a = ['map', [[N.s_str(kfmt % i), rng.choice(scalar_pool())]
                      for i in range(n)], S.TAG_MAP]
     elif kind == 'map_mixed':
-        a = ['map', [[N.s_str('k%d' % i),
+        a = ['map', [[N.s_str(kfmt % i),
                       item(i, rng.random() < 0.3) if rng.random() < 0.5
                       else rand_value(rng, False)]
                      for i in range(n + 1)], S.TAG_MAP]
@@ -291,7 +293,7 @@ def gen_case(rng, kind=None):
         a = ['seq', its, S.TAG_SEQ]
     elif kind == 'map_complex_key':
         # one entry of the mapping has a key that is no scalar
-        ps = [[N.s_str('k%d' % i), item(i, rng.random() < 0.3)]
+        ps = [[N.s_str(kfmt % i), item(i, rng.random() < 0.3)]
               for i in range(n)]
         ps.insert(rng.randint(0, n), [
             ['seq', [N.s_str('p'), N.s_str('q')], S.TAG_SEQ],
